@@ -408,7 +408,7 @@ func (mc *ModbusClient) ReadRegisters(addr uint16, quantity uint16, regType RegT
 	var mbPayload	[]byte
 
 	// read quantity uint16 registers, as bytes
-	mbPayload, err	= mc.readRegisters(addr, quantity, regType)
+	mbPayload, err	= mc.readRegisters(addr, uint32(quantity), regType)
 	if err != nil {
 		return
 	}
@@ -437,7 +437,7 @@ func (mc *ModbusClient) ReadUint32s(addr uint16, quantity uint16, regType RegTyp
 	var mbPayload	[]byte
 
 	// read 2 * quantity uint16 registers, as bytes
-	mbPayload, err	= mc.readRegisters(addr, quantity * 2, regType)
+	mbPayload, err	= mc.readRegisters(addr, uint32(quantity) * 2, regType)
 	if err != nil {
 		return
 	}
@@ -465,7 +465,7 @@ func (mc *ModbusClient) ReadFloat32s(addr uint16, quantity uint16, regType RegTy
 	var mbPayload	[]byte
 
 	// read 2 * quantity uint16 registers, as bytes
-	mbPayload, err	= mc.readRegisters(addr, quantity * 2, regType)
+	mbPayload, err	= mc.readRegisters(addr, uint32(quantity) * 2, regType)
 	if err != nil {
 		return
 	}
@@ -493,7 +493,7 @@ func (mc *ModbusClient) ReadUint64s(addr uint16, quantity uint16, regType RegTyp
 	var mbPayload	[]byte
 
 	// read 4 * quantity uint16 registers, as bytes
-	mbPayload, err	= mc.readRegisters(addr, quantity * 4, regType)
+	mbPayload, err	= mc.readRegisters(addr, uint32(quantity) * 4, regType)
 	if err != nil {
 		return
 	}
@@ -521,7 +521,7 @@ func (mc *ModbusClient) ReadFloat64s(addr uint16, quantity uint16, regType RegTy
 	var mbPayload	[]byte
 
 	// read 4 * quantity uint16 registers, as bytes
-	mbPayload, err	= mc.readRegisters(addr, quantity * 4, regType)
+	mbPayload, err	= mc.readRegisters(addr, uint32(quantity) * 4, regType)
 	if err != nil {
 		return
 	}
@@ -638,7 +638,7 @@ func (mc *ModbusClient) WriteCoils(addr uint16, values []bool) (err error) {
 		return
 	}
 
-	if quantity > 0x7b0 {
+	if len(values) > 0x7b0 {
 		err	= ErrUnexpectedParameters
 		mc.logger.Error("quantity of coils exceeds 1968")
 		return
@@ -882,7 +882,7 @@ func (mc *ModbusClient) readBytes(addr uint16, quantity uint16, regType RegType,
 	// (2 bytes per reg)
 	regCount = (quantity / 2) + (quantity % 2)
 
-	values, err = mc.readRegisters(addr, regCount, regType)
+	values, err = mc.readRegisters(addr, uint32(regCount), regType)
 	if err != nil {
 		return
 	}
@@ -1015,7 +1015,7 @@ func (mc *ModbusClient) readBools(addr uint16, quantity uint16, di bool) (values
 }
 
 // Reads and returns quantity registers of type regType, as bytes.
-func (mc *ModbusClient) readRegisters(addr uint16, quantity uint16, regType RegType) (bytes []byte, err error) {
+func (mc *ModbusClient) readRegisters(addr uint16, quantity uint32, regType RegType) (bytes []byte, err error) {
 	var req		*pdu
 	var res		*pdu
 
@@ -1048,7 +1048,7 @@ func (mc *ModbusClient) readRegisters(addr uint16, quantity uint16, regType RegT
 		return
 	}
 
-	if uint32(addr) + uint32(quantity) - 1 > 0xffff {
+	if uint32(addr) + quantity - 1 > 0xffff {
 		err = ErrUnexpectedParameters
 		mc.logger.Error("end register address is past 0xffff")
 		return
@@ -1057,7 +1057,7 @@ func (mc *ModbusClient) readRegisters(addr uint16, quantity uint16, regType RegT
 	// start address
 	req.payload	= uint16ToBytes(BIG_ENDIAN, addr)
 	// quantity
-	req.payload	= append(req.payload, uint16ToBytes(BIG_ENDIAN, quantity)...)
+	req.payload	= append(req.payload, uint16ToBytes(BIG_ENDIAN, uint16(quantity))...)
 
 	// run the request across the transport and wait for a response
 	res, err	= mc.executeRequest(req)
@@ -1121,7 +1121,7 @@ func (mc *ModbusClient) writeRegisters(addr uint16, values []byte) (err error) {
 		return
 	}
 
-	if quantity > 123 {
+	if len(values) / 2 > 123 {
 		err = ErrUnexpectedParameters
 		mc.logger.Error("quantity of registers exceeds 123")
 		return
